@@ -1,8 +1,10 @@
-(* Extraction of the C06 snapshot judge (Msi/Invariant.v) to OCaml: the
-   boolean invariant evaluated on the implementation's snapshots
+(* Extraction of the C06 snapshot judges (Msi/Invariant.v: clauses 1-5 and the
+   supporting conjuncts; Msi/L3Invariant.v: the L3 clauses of MVP-8.0 and the
+   data-value clause) to OCaml: the
+   boolean invariants evaluated on the implementation's snapshots
    (tools/oracle/msi_main.ml).  ExtrOcamlBasic only; Z, positive and nat stay
    the Coq datatypes. *)
 From Coq Require Import Extraction ExtrOcamlBasic ZArith List.
-From Maj Require Import Msi.Protocol Msi.Invariant.
+From Maj Require Import Msi.Protocol Msi.Invariant Msi.L3Protocol Msi.L3Invariant.
 Extraction Language OCaml.
-Extraction "msi_oracle.ml" violated inv_b inv_full_b flush_marks lines_of s_ms s_l1.
+Extraction "msi_oracle.ml" violated inv_b inv_full_b flush_marks lines_of s_ms s_l1 violated3 l3_b.
